@@ -167,4 +167,21 @@ def applyBlockTracked (fixed : Bool) (cfg : Cfg) (st : State) (blk : Block) : Ou
   if cfg.fetchesFull fixed blk.height then applyBlock cfg st blk
   else applyBlock { cfg with indexRunes := false } st blk
 
+/-- index the chain as the configuration sees it, values of outputs created below
+`first_index_height` tracked locally (the fold `drv_flagsx` performs) -/
+def runTrackedFrom (fixed : Bool) (cfg : Cfg) : State → List Block → Outcome (State × List Event)
+  | st, [] => .ok (st, [])
+  | st, b :: bs =>
+    match applyBlockTracked fixed cfg st b with
+    | .panic s => .panic s
+    | .err e => .err e
+    | .ok (st1, ev1) =>
+      match runTrackedFrom fixed cfg st1 bs with
+      | .panic s => .panic s
+      | .err e => .err e
+      | .ok (st2, ev2) => .ok (st2, ev1 ++ ev2)
+
+def runTracked (fixed : Bool) (cfg : Cfg) (chain : List Block) : Outcome (State × List Event) :=
+  runTrackedFrom fixed cfg {} chain
+
 end Ord.Index
